@@ -191,6 +191,14 @@ def rule_r4(p, res):
     s = norm(returns_of(ap.node)[0].value)
     want = "self.ti[%s] + %s[:, None] * self.tij[%s] + %s[:, None] * self.tik[%s]" % (ti, al, ti, be, ti)
     r.check(s == want, ap, ap.node, "the image of a point is ti + alpha tij + beta tik of *its own* triangle (found `%s`)" % s, {"apply": s})
+    pin = p.own_method("AbstractPWA", "__init__")
+    r.instance(pin)
+    gpin = cfgmod.build(pin.node)
+    tri = [n_ for n_ in walk_own(pin.node) if isinstance(n_, ast.Assign) and isinstance(n_.value, ast.Call) and "TriMesh" in (dotted(n_.value.func) or "") and norm(n_.targets[0]) == pin.params[1]]
+    need(len(tri) == 1, "C07.R4: the Delaunay fallback of AbstractPWA.__init__ was not found")
+    gs_ = [(str(norm(t_)), pol) for t_, pol in gpin.guards(tri[0])]
+    r.check(gs_ == [("isinstance(%s, TriMesh)" % pin.params[1], False)], pin, tri[0], "the source is re-triangulated under %s: only a source that is no TriMesh at all (isinstance) may be given a Delaunay "
+            "triangulation; an exact type test also discards the triangle list of coloured / textured meshes, so the map is no longer affine inside the source's own triangles" % gs_, {"fallback_guard": gs_})
     rb = p.own_method("AbstractPWA", "_rebuild_target_vectors")
     r.instance(rb)
     drb = Defs(rb.node)
@@ -274,4 +282,8 @@ WITNESSES = [
     Witness("C07.W11", "menpo/transform/homogeneous/similarity.py", "procrustes_alignment", "        p.compose_before_inplace(r)\n    p.compose_before_inplace(tgt_t.pseudoinverse())", "        p.compose_before_inplace(r)\n        p.compose_before_inplace(tgt_t.pseudoinverse())",
             rule="C07.R3", construct="procrustes_alignment", note="seeded change R2-C07-C"),
     Witness("C07.T1", "menpo/transform/base/alignment.py", "Alignment.alignment_error", "np.linalg.norm(self.target.points - self.aligned_source().points)", "np.linalg.norm(self.aligned_source().points - self.target.points)", kind="T"),
+]
+
+WITNESSES += [
+    Witness("C07.W12", "menpo/transform/piecewiseaffine/base.py", "AbstractPWA.__init__", "if not isinstance(source, TriMesh):", "if type(source) is not TriMesh:", rule="C07.R4", construct="AbstractPWA.__init__", note="seeded change R4-C07-A"),
 ]
